@@ -116,6 +116,16 @@ def judgeDecode (d : DictRt) (bs : Bytes) (impl : List String) : Judged :=
     return { model := modelOut, fails := fails.reverse, tags := tags.reverse,
              nontrivial := m.isOk || bs.length ≥ 28 }
 
+mutual
+/-- forget the Length fields (C01 compares code, flags, vendor id, typed value, nesting) -/
+partial def zeroLen : AVP → AVP
+  | .mk c f _ v (.group as) => .mk c f 0 v (.group (zeroLenL as))
+  | .mk c f _ v d => .mk c f 0 v d
+partial def zeroLenL : List AVP → List AVP
+  | [] => []
+  | a :: r => zeroLen a :: zeroLenL r
+end
+
 /-- normalise an API value to what a read returns (Length filled, V bit set with a vendor id) -/
 def opApply (m : Msg) (op : Char) (a : AVP) : Msg :=
   match a with
@@ -153,18 +163,23 @@ def judgeBuild (d : DictRt) (ops : String) (h : Header) (as : List AVP) (impl : 
       let ref := Spec.encode h.flags h.cmd h.app h.hbh h.e2e mFinal.avps
       if implSer ≠ toHex ref then fails := "C02:wire-image-differs-from-rfc-reference" :: fails
       -- C02: header length bookkeeping after every operation
-      let lastH := (implHlens.splitOn ",").getLast?.getD ""
+      let lastH := if implHlens = "" then "20" else (implHlens.splitOn ",").getLast?.getD ""
       if lastH ≠ toString (implSer.length / 2) then fails := "C02:header-length-not-serialised-size" :: fails
       if implHlens ≠ ",".intercalate (hlens.map toString) then fails := "C02:header-length-after-op" :: fails
       -- C01 API direction
-      let expTree := showAVPs mFinal.avps
+      let expTree := showAVPs (zeroLenL mFinal.avps)
       let expHdr := showHdr { mFinal.hdr with len := ser.length }
       if implRd ≠ "ok" then fails := "C01:api-built-message-not-readable" :: fails
       else
         let hdrTok := impl.find? (·.startsWith "H(") |>.getD ""
-        let treeTok := impl.find? (·.startsWith "[") |>.getD ""
+        let treeTok := match (impl.find? (·.startsWith "[")).bind parseAVPs with
+          | some t => showAVPs (zeroLenL t)
+          | none => "unparsable"
         if hdrTok ≠ expHdr then fails := "C01:api-roundtrip-header" :: fails
-        if treeTok ≠ expTree then fails := "C01:api-roundtrip-tree" :: fails
+        if treeTok ≠ expTree then
+          fails := "C01:api-roundtrip-tree" :: fails
+          -- C02, decode direction: the image equals the reference encoding, yet the typed values read differ
+          if implSer = toHex ref then fails := "C02:values-read-from-reference-image-differ" :: fails
         if (kv impl "reser").getD "" ≠ implSer then fails := "C01:api-reserialise-differs" :: fails
     else tags := "not-wfmsg" :: tags
     tags := s!"depth={depthL mFinal.avps} n={mFinal.avps.length}" :: tags
@@ -174,7 +189,7 @@ def judgeBuild (d : DictRt) (ops : String) (h : Header) (as : List AVP) (impl : 
 def judgeAnswer (h : Header) (rc stream : Nat) (impl : List String) : Judged :=
   let m : Msg := { hdr := h, avps := [] }
   let a := m.answer rc 111 222
-  let modelOut := s!"{showHdr a.hdr} {showAVPs a.avps} stream={stream}"
+  let modelOut := s!"{showHdr a.hdr} {showAVPs a.avps} stream={if (kv impl "stream") = some "none" then "none" else toString stream}"
   Id.run do
     let mut fails : List String := []
     match parseHdr (impl.getD 0 "") with
@@ -189,19 +204,23 @@ def judgeAnswer (h : Header) (rc stream : Nat) (impl : List String) : Judged :=
     let tree := impl.getD 1 ""
     if rc ≠ 0 ∧ ¬ tree.startsWith s!"[A(268,64,12,0,f16:{rc})" then fails := "C16:result-code-avp" :: fails
     if rc = 0 ∧ tree ≠ "[]" then fails := "C16:unexpected-avp" :: fails
-    if (kvNat impl "stream") ≠ some stream then fails := "C16:stream-not-mirrored" :: fails
+    if (kv impl "stream") ≠ some "none" ∧ (kvNat impl "stream") ≠ some stream then fails := "C16:stream-not-mirrored" :: fails
+    if (kv impl "msgstream").isSome then fails := "C16:answer-stream-field" :: fails
     return { model := modelOut, fails := fails.reverse,
              tags := [s!"hbh0={decide (h.hbh = 0)} e2e0={decide (h.e2e = 0)} rc0={decide (rc = 0)}"] }
 
 /-- `codec find d=<dict> app=<n> <tree> q=<first|all|path>:<c1.c2..> => [<avps>] | err` -/
-def judgeFind (as : List AVP) (mode : String) (codes : List Nat) (impl : List String) : Judged :=
+def judgeFind (d : DictRt) (app : Nat) (as : List AVP) (mode : String) (codes : List Nat) (impl : List String) : Judged :=
   let c := codes.headD 0
+  let resolvable := codes.all (fun c => (d.findCode (chainFuel d.parents) app c UndefinedVendorID).isSome)
   let modelRes : Option (List AVP) :=
-    if mode = "first" then (findFirstL c as).map (fun a => [a])
+    if ¬ resolvable then none
+    else if mode = "first" then (findFirstL c as).map (fun a => [a])
     else if mode = "all" then (let r := findAllL c as; if r.isEmpty then none else some r)
     else some (withPath as codes)
   let specRes : Option (List AVP) :=
-    if mode = "first" then ((preorderL as).find? (fun a => a.code = c)).map (fun a => [a])
+    if ¬ resolvable then none
+    else if mode = "first" then ((preorderL as).find? (fun a => a.code = c)).map (fun a => [a])
     else if mode = "all" then (let r := (preorderL as).filter (fun a => a.code = c); if r.isEmpty then none else some r)
     else some (followPath as codes)
   let render (r : Option (List AVP)) := match r with | some l => showAVPs l | none => "err"
